@@ -62,6 +62,10 @@ def expr_kinds():
     out.append(('SetComp', lambda: ast.SetComp(elt=N('i'), generators=gen())))
     out.append(('DictComp', lambda: ast.DictComp(key=N('i'), value=N('i'), generators=gen())))
     out.append(('GeneratorExp', lambda: ast.GeneratorExp(elt=N('i'), generators=gen())))
+    agen = lambda: [ast.comprehension(target=T('i'), iter=N('it'), ifs=[N('c')], is_async=1)]
+    out.append(('ListComp:async', lambda: ast.ListComp(elt=N('i'), generators=agen())))
+    out.append(('DictComp:async', lambda: ast.DictComp(key=N('i'), value=N('i'), generators=agen())))
+    out.append(('GeneratorExp:async', lambda: ast.GeneratorExp(elt=N('i'), generators=agen() + gen())))
     out.append(('JoinedStr', lambda: ast.JoinedStr(values=[ast.Constant(value='s'), ast.FormattedValue(value=N('p'), conversion=-1,
                                                                                                        format_spec=None)])))
     out.append(('Starred', lambda: ast.Starred(value=N('p'), ctx=L)))
